@@ -245,6 +245,29 @@ def layout_agreement(ctx, P, rule="KAS-LAYOUT"):
     wsrc, rsrc = tu.src(P.need("kastore_write_header", "kastore").body), tu.src(P.need("kastore_read_header", "kastore").body)
     ctx.ob(rule, "magic", "memcpy(header, KAS_MAGIC, 8)" in wsrc and "strncmp(header, KAS_MAGIC, 8)" in rsrc, tu.loc(P.need("kastore_read_header", "kastore").node),
            "magic written and compared over the same 8 bytes")
+    # version tests: the major version (file_version[0], assigned from version_major) decides too-old / too-new
+    rh = P.need("kastore_read_header", "kastore")
+    slots = {}
+    for x in walk(rh.body):
+        if is_assign(x):
+            l = estr(strip(x.kids[0]))
+            m_ = re.fullmatch(r"self->file_version\[(\d)\]", l)
+            if m_:
+                slots[m_.group(1)] = estr(x.kids[1])
+    major = [k_ for k_, v in slots.items() if "major" in v]
+    ctx.ob(rule, "version|slots", len(major) == 1, tu.loc(rh.node), "file_version slots assigned from %s" % slots)
+    vt = 0
+    for x in walk(rh.body):
+        if x.k == "BinaryOperator" and x.op in ("<", ">", "<=", ">=", "==", "!="):
+            a, b = estr(x.kids[0]), estr(x.kids[1])
+            for side, other in ((a, b), (b, a)):
+                if re.fullmatch(r"KAS_FILE_VERSION_(MAJOR|MINOR)", side):
+                    want = major[0] if (major and side.endswith("MAJOR")) else None
+                    if want is not None:
+                        vt += 1
+                        ctx.ob(rule, "version|%s%s" % (x.op, side), other == "self->file_version[%s]" % want, tu.loc(x),
+                               "`%s`: %s is compared with the slot that holds the major version" % (estr(x), side))
+    ctx.ob(rule, "version|tests", vt >= 2, tu.loc(rh.node), "%d comparisons with KAS_FILE_VERSION_MAJOR (too old, too new)" % vt)
     # several stores can follow one another on a stream: every absolute seek is relative to where THIS store started
     seeks = []
     for fn in tu.funcs.values():
